@@ -159,7 +159,7 @@ class LockStep:
         t.start()
 
     # ---- called by the scheduler ------------------------------------------------------------------
-    def wait_quiet(self, timeout=10.0):
+    def wait_quiet(self, timeout=120.0):
         with self.cv:
             if not self.cv.wait_for(lambda: self.running == 0, timeout):
                 raise HarnessError("threads did not reach a gate: running=%d at=%s" % (self.running, self.at))
@@ -561,6 +561,17 @@ def op_replay(task):
     * graph form: {"insts": [...], "nodes": [[inst_index, state], ...], "edges": {"node|label|w": node}, "paths": [[node0, [[label, w], ...]], ...]}
       (the quotient state graph dumped by TLC; a path is looked up edge by edge - no model logic here)
     * explicit form: {"behaviours": [{"inst": .., "steps": [[label, w, state], ...]}, ...]} (simulated behaviours)"""
+    import gc
+
+    gc.collect()
+    gc.freeze()  # the task (a large state graph) is long-lived: keep it out of the collector's way
+    try:
+        return _op_replay(task)
+    finally:
+        gc.unfreeze()
+
+
+def _op_replay(task):
     res = {"n": 0, "steps": 0, "bad": [], "nontrivial": 0}
     sep = task.get("sep_exit", True)
     behs = []
@@ -579,6 +590,10 @@ def op_replay(task):
         behs = [(b["inst"], [tuple(x) for x in b["steps"]]) for b in task["behaviours"]]
     for inst, steps in behs:
         r = replay_one(inst, steps, sep_exit=sep)
+        if r["bad"] and r["bad"][0]["field"] == "lockstep" and "did not reach a gate" in r["bad"][0]["impl"]:
+            # a thread got no CPU for two minutes (overloaded machine): once more before it counts
+            res["retried"] = res.get("retried", 0) + 1
+            r = replay_one(inst, steps, sep_exit=sep)
         res["n"] += 1
         res["steps"] += r["n"]
         if inst["fail"]:
